@@ -29,7 +29,7 @@ func (b *StringBuilder) WriteRune(r rune) (err error)
 func (b *StringBuilder) Print(args ...interface{})
   requires [C08] b.mode == SafeRaw ==> clean(b.buf, len(b.buf))
   may-panic
-  modifies b, alloc, memU, fdp, fdk, fdar, fdao, fdal, fdf, fdfl
+  modifies b, alloc, memU, fdp, fdk, fdar, fdao, fdal, fdf, fdfl, fdw
   assert [C08,C09,C16] b.mode == SafeRaw before "_, _ = ifmt.Fprint(&b.Buffer, args...)"
   ensures [C08,C09,C16] Routed(1, args)
 
@@ -37,9 +37,10 @@ func (b *StringBuilder) Printf(format string, args ...interface{})
   public format
   requires [C08] b.mode == SafeRaw ==> clean(b.buf, len(b.buf))
   may-panic
-  modifies b, alloc, memU, fdp, fdk, fdar, fdao, fdal, fdf, fdfl
+  modifies b, alloc, memU, fdp, fdk, fdar, fdao, fdal, fdf, fdfl, fdw
   assert [C08,C09,C16] b.mode == SafeRaw before "_, _ = ifmt.Fprintf(&b.Buffer, format, args...)"
   ensures [C08,C09,C16] Routed(2, args) && sameView(fdf, format) && fdfl == len(format)
+  ensures [C15,C16] !fdw
 
 func (b *StringBuilder) SafeString(s i.SafeString)
   assert [C01,C05,C09] b.mode == SafeEscaped before "_, _ = b.Buffer.WriteString(string(s))"
